@@ -45,7 +45,7 @@ def compositions(n):
 class C06(Check):
     ID = 'C06'
     LEVEL = 'exploration'
-    BUDGET = {'quick': 30, 'thorough': 300}
+    BUDGET = {'quick': 30, 'thorough': 240}
     RULE = ('case = (predicate, stream, parent context). Box: EVERY composition of n <= 9 (quick) / 11 (thorough) into run lengths, runs drawn from 3 predicate '
             'blocks so a value can come back later (A,B,A = three segments), x 5 predicates returning fresh equal-but-not-identical objects (int, 1-tuple, str, '
             'int > 2^40, parity); then random long inputs under group_by with interleaved keys, nested in roll (w != s, w == s), split, time_split, group_by>roll. '
@@ -75,7 +75,7 @@ class C06(Check):
         self.box_done = 1
 
     def _nested(self, rng, tier):
-        k = 1500 if tier == 'quick' else 15000
+        k = 1500 if tier == 'quick' else 10 ** 7
         names = ['group', 'roll', 'roll_eq', 'split', 'time_split', 'group>roll', 'roll>group', 'top']
         for j in range(k):
             name = names[j % len(names)]
